@@ -397,12 +397,13 @@ impl DiskCache {
         // removing by index in reverse to guarantee lower-index items aren't shifted/moved
         for item_idx in to_remove.into_iter().rev() {
             let item = items.swap_remove(item_idx);
+            // The entry leaves the in-memory state either way, so its bytes are no longer tracked.
+            total_bytes_rm += item.len;
             // We only remove from the disk if the item found is not equal to the cache_item
             // we just wrote. This can happen when multiple put calls are made for the same
             // item simultaneously.
             if item != cache_item {
                 overlapping_item_paths.insert(self.item_path(key, &item)?);
-                total_bytes_rm += item.len;
             }
         }
         state.num_items -= num_items_rm;
